@@ -453,6 +453,38 @@ type c16Case struct {
 	leftovers map[string][]byte
 	blocked   bool
 	data      []any
+	// ballotAges: ages (in blocks, as the update will see them: CurrentIndex - ballot height) of the legacy ballots;
+	// they are written by placeBallots right before the update so that the age is exact
+	ballotAges     []int64
+	ballotLeftover bool
+}
+
+// ballotWindow is the life time of a ballot in blocks (common/vote.go: a ballot whose last vote is more than 20
+// blocks old is dropped by the next vote; up to and including 20 it still collects votes, i.e. it is pending).
+const ballotWindow = 20
+
+var (
+	pendingAges = []int64{0, 1, 5, ballotWindow - 1, ballotWindow}
+	staleAges   = []int64{ballotWindow + 1, ballotWindow + 2, 100}
+)
+
+// placeBallots writes the 'ballots' item of the stub so that, in the update transaction sent in the very next block,
+// ballot i is exactly ages[i] blocks old. Returns the serialized item.
+func placeBallots(c *chainkit.Chain, stub util.Uint160, ages []int64) []byte {
+	// this put goes into block Height()+1, the update into Height()+2 and sees CurrentIndex = Height()+1
+	at := int64(c.Height()) + 1
+	var items []stackitem.Item
+	for _, a := range ages {
+		items = append(items, ballotItem(at-a))
+	}
+	val := ser(stackitem.NewArray(items))
+	if o := c.Invoke(nil, stub, "putMany", []any{[]byte("ballots"), val}); !o.Halt {
+		panic(chainkit.HarnessError{Msg: "stub putMany(ballots): " + o.Fault})
+	}
+	if int64(c.Height()) != at {
+		panic(chainkit.HarnessError{Msg: "placeBallots: unexpected block count"})
+	}
+	return val
 }
 
 func ballotItem(height int64) stackitem.Item {
@@ -488,14 +520,17 @@ func legacyFlags(rt *rapid.T, cs *c16Case, stale []string, purges bool) {
 		kinds = []string{"absent"} // this contract never collected votes
 	}
 	kind := rapid.SampledFrom(kinds).Draw(rt, "ballots")
-	cur := int64(cs.c.Height())
 	switch kind {
 	case "empty":
 		cs.legacy["ballots"] = ser(stackitem.NewArray(nil))
 	case "stale":
-		cs.legacy["ballots"] = ser(stackitem.NewArray([]stackitem.Item{ballotItem(cur - 100)}))
+		cs.ballotAges = []int64{rapid.SampledFrom(staleAges).Draw(rt, "staleAge")}
 	case "fresh":
-		cs.legacy["ballots"] = ser(stackitem.NewArray([]stackitem.Item{ballotItem(cur), ballotItem(cur - 100)}))
+		// one ballot still inside its window (boundary ages included) next to a dead one, in either order
+		cs.ballotAges = []int64{rapid.SampledFrom(pendingAges).Draw(rt, "pendingAge"), rapid.SampledFrom(staleAges).Draw(rt, "staleAge")}
+		if rapid.Bool().Draw(rt, "pendingLast") {
+			cs.ballotAges[0], cs.ballotAges[1] = cs.ballotAges[1], cs.ballotAges[0]
+		}
 	}
 	if flag == "true" && purges {
 		if kind == "fresh" {
@@ -503,7 +538,10 @@ func legacyFlags(rt *rapid.T, cs *c16Case, stale []string, purges bool) {
 		}
 		// otherwise the ballot list is purged together with the flag
 	} else if kind != "absent" {
-		cs.leftovers["ballots"] = cs.legacy["ballots"]
+		cs.ballotLeftover = true
+		if kind == "empty" {
+			cs.leftovers["ballots"] = cs.legacy["ballots"]
+		}
 	}
 }
 
@@ -511,9 +549,16 @@ func legacyFlags(rt *rapid.T, cs *c16Case, stale []string, purges bool) {
 func (cs *c16Case) run(h *ev.History) (util.Uint160, bool) {
 	c := cs.c
 	stub := installStub(c, cs.name, cs.legacy)
+	if len(cs.ballotAges) > 0 {
+		cs.legacy["ballots"] = placeBallots(c, stub, cs.ballotAges)
+		if cs.ballotLeftover {
+			cs.leftovers["ballots"] = cs.legacy["ballots"]
+		}
+		h.Mark(fmt.Sprintf("ballot-ages:%v", cs.ballotAges))
+	}
 	pre := c.Snapshot()
 	o := upgradeStub(c, stub, cs.name, cs.data, cs.v)
-	h.Op("%s: upgrade from version %d with %d legacy keys (blocked by pending vote: %v) -> %s", cs.name, cs.v, len(cs.legacy), cs.blocked, o)
+	h.Op("%s: upgrade from version %d with %d legacy keys, ballot ages %v (blocked by pending vote: %v) -> %s", cs.name, cs.v, len(cs.legacy), cs.ballotAges, cs.blocked, o)
 	if cs.blocked {
 		if o.Halt {
 			fail("C16: %s was updated from %d although a pending vote exists", cs.name, cs.v)
@@ -1008,14 +1053,13 @@ func c16Alphabet(rt *rapid.T, h *ev.History, v int64) {
 			cs.legacy["notary"] = []byte{1}
 		}
 		ballots = rapid.SampledFrom([]string{"absent", "empty", "stale", "fresh"}).Draw(rt, "ballots")
-		cur := int64(c.Height())
 		switch ballots {
 		case "empty":
 			cs.legacy["ballots"] = ser(stackitem.NewArray(nil))
 		case "stale":
-			cs.legacy["ballots"] = ser(stackitem.NewArray([]stackitem.Item{ballotItem(cur - 100)}))
+			cs.ballotAges = []int64{rapid.SampledFrom(staleAges).Draw(rt, "staleAge")}
 		case "fresh":
-			cs.legacy["ballots"] = ser(stackitem.NewArray([]stackitem.Item{ballotItem(cur + 4), ballotItem(cur - 100)}))
+			cs.ballotAges = []int64{rapid.SampledFrom(pendingAges).Draw(rt, "pendingAge"), rapid.SampledFrom(staleAges).Draw(rt, "staleAge")}
 		}
 	}
 	// an older deployment may have been pointed at another Proxy: the update stores the one it is given
@@ -1034,16 +1078,20 @@ func c16Alphabet(rt *rapid.T, h *ev.History, v int64) {
 	notaryH := c.NativeHash(nativenames.Notary)
 	names[notaryH] = "the Notary contract"
 	watch := append([]util.Uint160{stub, fs.H["proxy"], notaryH}, nodes...)
+	passProxy := rapid.Bool().Draw(rt, "proxyAddressGiven")
+	if len(cs.ballotAges) > 0 {
+		cs.legacy["ballots"] = placeBallots(c, stub, cs.ballotAges)
+		h.Mark(fmt.Sprintf("ballot-ages:%v", cs.ballotAges))
+	}
 	pre := gasLedger(c, watch)
 	preSnap := c.Snapshot()
-	passProxy := rapid.Bool().Draw(rt, "proxyAddressGiven")
 	var proxyArg any = []byte{}
 	if passProxy {
 		proxyArg = fs.H["proxy"]
 	}
 	cs.data = []any{false, []byte{}, proxyArg, "az", int64(0), int64(1)}
 	o := upgradeStub(c, stub, "alphabet", cs.data, v)
-	h.Op("alphabet: upgrade from %d, non-Notary flag %s, ballots %s, %d GAS units, %d Inner Ring + %d storage nodes, proxy address given=%v -> %s", v, flag, ballots, g0, r, k, passProxy, o)
+	h.Op("alphabet: upgrade from %d, non-Notary flag %s, ballots %s (ages %v), %d GAS units, %d Inner Ring + %d storage nodes, proxy address given=%v -> %s", v, flag, ballots, cs.ballotAges, g0, r, k, passProxy, o)
 	want := map[util.Uint160]int64{}
 	refused := false
 	if flag == "true" {
